@@ -174,6 +174,10 @@ func (e *Enc) frameObligations(fr *Frame, con *Contract, mkctx func(*State, []Va
 	allowed := map[string][]string{} // heap key -> allowed cell predicates over (r, i)
 	allowedGhost := map[string]bool{}
 	allowedMaps := map[string][]string{}
+	fieldTargets := map[string][]int{}
+	fieldCell := map[string]*Place{}
+	wholeCell := map[string]bool{}
+	var fieldOrder []string
 	ctx := mkctx(entry, nil, "modifies of "+contractName(fr.fn))
 	for _, target := range con.Modifies {
 		switch {
@@ -220,10 +224,46 @@ func (e *Enc) frameObligations(fr *Frame, con *Contract, mkctx func(*State, []Va
 				p = p.Base
 			}
 			k := e.B.heapName(p.Typ)
-			// whole cell allowed (field-level precision is given up on the
-			// verification side: sound, since it only weakens what callers learn)
 			allowed[k] = append(allowed[k], fmt.Sprintf("(and (= r (pref %s)) (= i (pidx %s)))", p.Ptr, p.Ptr))
+			// a field-level target ("c.buf"): callers keep the cell's other
+			// fields, so those must be proved unchanged
+			if ce.P.Kind == PField && ce.P.Base.Kind == PDeref {
+				key := k + "|" + p.Ptr
+				if _, seen := fieldTargets[key]; !seen {
+					fieldOrder = append(fieldOrder, key)
+					fieldCell[key] = p
+				}
+				fieldTargets[key] = append(fieldTargets[key], ce.P.Field)
+			} else {
+				wholeCell[k+"|"+p.Ptr] = true
+			}
 		}
+	}
+	for _, key := range fieldOrder {
+		if wholeCell[key] {
+			continue
+		}
+		p := fieldCell[key]
+		st := p.Typ.Underlying().(*types.Struct)
+		was := e.getPlace(entry, p)
+		now := e.getPlace(out, p)
+		if was == now {
+			continue
+		}
+		var eqs []Term
+		for j := 0; j < st.NumFields(); j++ {
+			listed := false
+			for _, f := range fieldTargets[key] {
+				if f == j {
+					listed = true
+				}
+			}
+			if !listed {
+				eqs = append(eqs, fmt.Sprintf("(= %s %s)", e.B.structField(p.Typ, now, j), e.B.structField(p.Typ, was, j)))
+			}
+		}
+		o := e.addObl(fr, "frame", implies(returns, and(eqs...)), "fields outside modifies unchanged: "+shortTypeName(p.Typ), fr.fn.Pos(), nil)
+		o.Name = fmt.Sprintf("%s/frame-fields:%s", contractName(fr.fn), sanitize(shortTypeName(p.Typ)))
 	}
 	if allowAll {
 		return
